@@ -57,12 +57,22 @@ def run_cases(ctx, cases_path, label, expected_ids=None, lists=("M",)):
     return res
 
 
+def ledger_file(ctx, ledger):
+    """The thorough tier explores a larger fixed corpus than the quick tier, so it has its own
+    ledger of recorded failing inputs (known/Cxx.thorough.ledger); the known findings that own
+    the inputs are the same (matched by the base name known/Cxx.ledger)."""
+    path = os.path.join(common.VERIF, ledger)
+    if ctx.tier == "thorough":
+        path = path[:-len(".ledger")] + ".thorough.ledger" if path.endswith(".ledger") else path + ".thorough"
+    return path
+
+
 def ledger_env(ctx, ledger):
     """Environment for a harness run in ledger mode (or record mode when the developer asked
     for it with ./check Cxx --record; a check never records)."""
     if not ledger:
         return {}
-    path = os.path.join(common.VERIF, ledger)
+    path = ledger_file(ctx, ledger)
     if os.environ.get("VERIF_DO_RECORD") == "1":
         if os.path.exists(path + ".new"):
             os.remove(path + ".new")
@@ -75,7 +85,7 @@ def ledger_finish(ctx, ledger, st):
     open known findings that own the ledger (per root-cause label)."""
     if not ledger:
         return
-    path = os.path.join(common.VERIF, ledger)
+    path = ledger_file(ctx, ledger)
     if os.environ.get("VERIF_DO_RECORD") == "1":
         new = path + ".new"
         if os.path.exists(new):
@@ -89,7 +99,7 @@ def ledger_finish(ctx, ledger, st):
             with open(path, "w") as f:
                 f.write("\n".join(allv) + "\n")
             os.remove(new)
-            common.log("recorded %d failing inputs into %s" % (len(lines), ledger))
+            common.log("recorded %d failing inputs into %s" % (len(lines), os.path.relpath(path, common.VERIF)))
         return
     known = common.load_known(ctx.prop)
     by_rc = st.get("known_by_rc") or {}
